@@ -524,8 +524,8 @@ def templates(tier):
     add("overdetermined-pos-vs-coords", [obj("A", gshape=(2, None, None)), obj("B", gshape=(2, None, None))],
         [c_pos("A", "B", (0,), (0.0,), (0.0,), margins=(R("m", -1.0, 1.0),)), c_grid("A", (0,), ("-",), (I("ga", 0, N - 2),)), c_grid("B", (0,), ("-",), (I("gb", 0, N - 2),))])
     add("overdetermined-pos-vs-2coords", [obj("A", gshape=(2, None, None)), obj("B")],
-        [c_pos("A", "B", (0,), (0.0,), (0.0,), margins=(R("m", -1.0, 1.0),)), c_grid("A", (0,), ("-",), (I("ga", 0, 4),)), c_grid("B", (0,), ("-",), (I("gb", 0, 2),)),
-         c_grid("B", (0,), ("+",), (I("gb1", 3, 5),))])
+        [c_pos("A", "B", (0,), (0.0,), (0.0,), margins=(R("m", -1.0, 1.0),)), c_grid("A", (0,), ("-",), (I("ga", 0, 2),)), c_grid("B", (0,), ("-",), (I("gb", 0, 1),)),
+         c_grid("B", (0,), ("+",), (I("gb1", 3, 4),))])
     add("overdetermined-pos-vs-coords-pinned", [obj("A", gshape=(2, None, None)), obj("B", gshape=(2, None, None))],
         [c_pos("A", "B", (0,), (0.0,), (0.0,), margins=(R("m", -1.0, 1.0),)), c_grid("A", (0,), ("-",), (I("ga", 0, 2),)), c_grid("A", (0,), ("+",), (I("ga1", 2, 4),)),
          c_grid("B", (0,), ("-",), (I("gb", 1, 3),)), c_grid("B", (0,), ("+",), (I("gb1", 3, 5),))], pinned=["A", "B"])
